@@ -22,6 +22,9 @@ End EventInd.
 
 Section Proofs.
 Variables A M : Type.
+(** Which writes unwind (a panicking sink) is arbitrary throughout: every statement below holds for every
+    behaviour of the sinks.  What a write RETURNS is not even an input (the code ignores it). *)
+Variable unw : M -> list A -> bool.
 Implicit Types (e : event A M) (es : list (event A M)) (c : cfg) (buf : list A).
 
 Lemma spec_actions_app : forall (r1 r2 : list (M * list A)),
@@ -30,7 +33,7 @@ Proof. intros. unfold spec_actions. apply flat_map_app. Qed.
 
 (** ** The fresh-String path never touches, and never depends on, the thread-local buffer *)
 Lemma finish_fresh : forall c buf (m : M) (out : outcome A),
-  finish c true buf m out = (buf, spec_actions (match out with
+  finish unw c true buf m out = (buf, spec_actions (match out with
                                                  | OOk r => [(m, r)]
                                                  | OErr _ line => if lie c then [(m, line)] else []
                                                  | OPanic _ => []
@@ -42,7 +45,7 @@ Proof.
   - reflexivity.
 Qed.
 
-Lemma fresh_ok : forall c e buf, on_event c true buf e = (buf, spec_actions (records (lie c) e)).
+Lemma fresh_ok : forall c e buf, on_event unw c true buf e = (buf, spec_actions (records (lie c) e)).
 Proof.
   intros c e. induction e as [m nested out IH] using event_ind'. intros buf.
   simpl. rewrite finish_fresh. f_equal. rewrite spec_actions_app. f_equal.
@@ -51,7 +54,7 @@ Proof.
 Qed.
 
 Lemma inner_ok : forall c (nested : list (event A M)),
-  flat_map (fun n => snd (on_event c true [] n)) nested = spec_actions (flat_map (records (lie c)) nested).
+  flat_map (fun n => snd (on_event unw c true [] n)) nested = spec_actions (flat_map (records (lie c)) nested).
 Proof.
   intros c nested. induction nested as [|n t IH]; simpl; [reflexivity|].
   rewrite spec_actions_app, fresh_ok. simpl. f_equal. exact IH.
@@ -63,16 +66,23 @@ Qed.
 Definition clean c buf : Prop := pol c = ClearBefore \/ buf = [].
 
 Lemma on_event_ok : forall c buf e,
-  clean c buf -> (pol c = ClearAfterOnly -> aborted e = false) ->
-  clean c (fst (on_event c false buf e)) /\ snd (on_event c false buf e) = spec_actions (records (lie c) e).
+  clean c buf -> (pol c = ClearAfterOnly -> aborted unw (lie c) e = false) ->
+  clean c (fst (on_event unw c false buf e)) /\ snd (on_event unw c false buf e) = spec_actions (records (lie c) e).
 Proof.
   intros c buf [m nested out] Hc Hp. simpl.
-  destruct (finish c false buf m out) as [b a] eqn:F. simpl.
+  destruct (finish unw c false buf m out) as [b a] eqn:F. simpl.
   rewrite inner_ok, spec_actions_app.
-  unfold finish in F. destruct out as [r|p line|p]; simpl in *.
-  - inversion F; subst. split; [right; reflexivity|]. f_equal.
-    destruct Hc as [Hc| ->]; [rewrite Hc; reflexivity|]. destruct (pol c); reflexivity.
-  - inversion F; subst. split; [right; reflexivity|]. f_equal. destruct (lie c); reflexivity.
+  unfold finish, left_behind in F. destruct out as [r|p line|p]; simpl in *.
+  - assert (E : (match pol c with ClearBefore => [] | _ => buf end) ++ r = r).
+    { destruct Hc as [Hc| ->]; [rewrite Hc; reflexivity|]. destruct (pol c); reflexivity. }
+    rewrite E in F. inversion F; subst. split; [|reflexivity].
+    destruct (unw m r) eqn:U; [|right; reflexivity].
+    destruct (pol c) eqn:P; [specialize (Hp eq_refl); discriminate | left; exact P | right; reflexivity].
+  - destruct (lie c) eqn:L.
+    + inversion F; subst. split; [|reflexivity].
+      destruct (unw m line) eqn:U; [|right; reflexivity].
+      destruct (pol c) eqn:P; [specialize (Hp eq_refl); discriminate | left; exact P | right; reflexivity].
+    + inversion F; subst. split; [right; reflexivity | reflexivity].
   - inversion F; subst. split; [|reflexivity].
     destruct (pol c) eqn:P; [specialize (Hp eq_refl); discriminate | left; exact P | right; reflexivity].
 Qed.
@@ -81,74 +91,85 @@ Qed.
     event (nested ones first), one [make_writer_for] with that event's metadata and one [write_all]
     carrying exactly that event's record. *)
 Theorem one_factory_one_write_gen : forall c es buf,
-  clean c buf -> (pol c = ClearAfterOnly -> NoAbortedFormat es) ->
-  snd (run_thread c buf es) = spec_actions (flat_map (records (lie c)) es).
+  clean c buf -> (pol c = ClearAfterOnly -> NoAbortedFormat unw (lie c) es) ->
+  snd (run_thread unw c buf es) = spec_actions (flat_map (records (lie c)) es).
 Proof.
   intros c es. induction es as [|e t IH]; intros buf Hc Hp; simpl; [reflexivity|].
-  assert (He : pol c = ClearAfterOnly -> aborted e = false).
+  assert (He : pol c = ClearAfterOnly -> aborted unw (lie c) e = false).
   { intros P. specialize (Hp P). inversion Hp; assumption. }
-  assert (Ht : pol c = ClearAfterOnly -> NoAbortedFormat t).
+  assert (Ht : pol c = ClearAfterOnly -> NoAbortedFormat unw (lie c) t).
   { intros P. specialize (Hp P). inversion Hp; assumption. }
   destruct (on_event_ok c buf e Hc He) as [Hc' Ha].
-  destruct (on_event c false buf e) as [b a]. simpl in *.
-  specialize (IH b Hc' Ht). destruct (run_thread c b t) as [b' a']. simpl in *.
+  destruct (on_event unw c false buf e) as [b a]. simpl in *.
+  specialize (IH b Hc' Ht). destruct (run_thread unw c b t) as [b' a']. simpl in *.
   rewrite spec_actions_app. congruence.
 Qed.
 
 Theorem one_factory_one_write : forall c es,
-  (pol c = ClearAfterOnly -> NoAbortedFormat es) ->
-  snd (run_thread c [] es) = spec_actions (flat_map (records (lie c)) es).
+  (pol c = ClearAfterOnly -> NoAbortedFormat unw (lie c) es) ->
+  snd (run_thread unw c [] es) = spec_actions (flat_map (records (lie c)) es).
 Proof. intros. apply one_factory_one_write_gen; [right; reflexivity | assumption]. Qed.
 
 (** After either repair the hypothesis is gone: a caught panic during formatting affects no later record. *)
 Corollary panic_safe_when_repaired : forall c es,
   pol c <> ClearAfterOnly ->
-  snd (run_thread c [] es) = spec_actions (flat_map (records (lie c)) es).
+  snd (run_thread unw c [] es) = spec_actions (flat_map (records (lie c)) es).
 Proof. intros c es H. apply one_factory_one_write. intros P. contradiction. Qed.
 
-Lemma no_aborted_format_spec : forall es, no_aborted_format es = true <-> NoAbortedFormat es.
+(** History independence (repaired code): whatever came before on the thread — aborted formats, writes
+    that failed, sinks that panicked — the calls made for the later events are those of a fresh thread.
+    In particular the record after a failed write is whole and unprefixed. *)
+Corollary history_independent : forall c es1 es2,
+  pol c <> ClearAfterOnly ->
+  snd (run_thread unw c [] (es1 ++ es2)) = snd (run_thread unw c [] es1) ++ snd (run_thread unw c [] es2).
 Proof.
-  intros es. unfold no_aborted_format, NoAbortedFormat. rewrite forallb_forall, Forall_forall.
-  split; intros H e He; specialize (H e He); destruct (aborted e); simpl in *; congruence.
+  intros c es1 es2 H. rewrite !panic_safe_when_repaired by assumption.
+  rewrite flat_map_app. apply spec_actions_app.
+Qed.
+
+Lemma no_aborted_format_spec : forall l es, no_aborted_format unw l es = true <-> NoAbortedFormat unw l es.
+Proof.
+  intros l es. unfold no_aborted_format, NoAbortedFormat. rewrite forallb_forall, Forall_forall.
+  split; intros H e He; specialize (H e He); destruct (aborted unw l e); simpl in *; congruence.
 Qed.
 
 (** ** The micro-step machine runs the same protocol *)
 
 Lemma trace_items_app : forall c (l1 l2 : list (item A M)) buf,
-  trace_items c buf (l1 ++ l2) =
-  (fst (trace_items c (fst (trace_items c buf l1)) l2),
-   snd (trace_items c buf l1) ++ snd (trace_items c (fst (trace_items c buf l1)) l2)).
+  trace_items unw c buf (l1 ++ l2) =
+  (fst (trace_items unw c (fst (trace_items unw c buf l1)) l2),
+   snd (trace_items unw c buf l1) ++ snd (trace_items unw c (fst (trace_items unw c buf l1)) l2)).
 Proof.
   intros c l1. induction l1 as [|[fresh m out] t IH]; intros l2 buf; simpl.
-  - destruct (trace_items c buf l2); reflexivity.
-  - destruct (finish c fresh buf m out) as [b a]. rewrite IH.
-    destruct (trace_items c b t) as [b' a']. simpl.
-    destruct (trace_items c b' l2) as [b'' a'']. simpl. rewrite app_assoc. reflexivity.
+  - destruct (trace_items unw c buf l2); reflexivity.
+  - destruct (finish unw c fresh buf m out) as [b a]. rewrite IH.
+    destruct (trace_items unw c b t) as [b' a']. simpl.
+    destruct (trace_items unw c b' l2) as [b'' a'']. simpl. rewrite app_assoc. reflexivity.
 Qed.
 
-Lemma flatten_ok : forall c e fresh buf, trace_items c buf (flatten fresh e) = on_event c fresh buf e.
+Lemma flatten_ok : forall c e fresh buf, trace_items unw c buf (flatten fresh e) = on_event unw c fresh buf e.
 Proof.
   intros c e. induction e as [m nested out IH] using event_ind'. intros fresh buf. simpl.
   rewrite trace_items_app.
-  assert (N : trace_items c buf (flat_map (flatten true) nested)
-              = (buf, flat_map (fun n => snd (on_event c true [] n)) nested)).
+  assert (N : trace_items unw c buf (flat_map (flatten true) nested)
+              = (buf, flat_map (fun n => snd (on_event unw c true [] n)) nested)).
   { clear fresh. revert buf. induction IH as [|n t Hn _ IHt]; intros buf; simpl; [reflexivity|].
     rewrite trace_items_app, Hn, !fresh_ok. simpl. rewrite IHt. reflexivity. }
-  rewrite N. simpl. destruct (finish c fresh buf m out) as [b a]. simpl. rewrite app_nil_r. reflexivity.
+  rewrite N. simpl. destruct (finish unw c fresh buf m out) as [b a]. simpl. rewrite app_nil_r. reflexivity.
 Qed.
 
 Lemma run_thread_flat : forall c es buf,
-  run_thread c buf es = trace_items c buf (flat_map (flatten false) es).
+  run_thread unw c buf es = trace_items unw c buf (flat_map (flatten false) es).
 Proof.
   intros c es. induction es as [|e t IH]; intros buf; simpl; [reflexivity|].
-  rewrite trace_items_app, flatten_ok. destruct (on_event c false buf e) as [b a]. simpl.
-  rewrite IH. destruct (trace_items c b (flat_map (flatten false) t)); reflexivity.
+  rewrite trace_items_app, flatten_ok. destruct (on_event unw c false buf e) as [b a]. simpl.
+  rewrite IH. destruct (trace_items unw c b (flat_map (flatten false) t)); reflexivity.
 Qed.
 
 Definition olist (oa : option (action A M)) : list (action A M) := match oa with Some a => [a] | None => [] end.
 
 Lemma step_remaining : forall c (s s' : tstate A M) oa,
-  tstep c s = Some (s', oa) -> remaining c s = olist oa ++ remaining c s'.
+  tstep unw c s = Some (s', oa) -> remaining unw c s = olist oa ++ remaining unw c s'.
 Proof.
   intros c [buf ph todo] s' oa H. unfold tstep in H. simpl in H.
   destruct ph as [|fresh m w|fresh m w].
@@ -156,19 +177,19 @@ Proof.
     unfold remaining at 1. simpl. unfold finish.
     destruct out as [r|p line|p].
     + inversion H; subst; clear H. unfold remaining. simpl.
-      destruct fresh; simpl; destruct (trace_items c _ rest); reflexivity.
+      destruct fresh; simpl; destruct (trace_items unw c _ rest); reflexivity.
     + destruct (lie c).
       * inversion H; subst; clear H. unfold remaining. simpl.
-        destruct fresh; simpl; destruct (trace_items c _ rest); reflexivity.
+        destruct fresh; simpl; destruct (trace_items unw c _ rest); reflexivity.
       * inversion H; subst; clear H. unfold remaining. simpl.
-        destruct (trace_items c _ rest); reflexivity.
+        destruct (trace_items unw c _ rest); reflexivity.
     + inversion H; subst; clear H. unfold remaining. simpl.
-      destruct (trace_items c _ rest); reflexivity.
+      destruct (trace_items unw c _ rest); reflexivity.
   - inversion H; subst; clear H. reflexivity.
   - inversion H; subst; clear H. reflexivity.
 Qed.
 
-Lemma step_none_remaining : forall c (s : tstate A M), tstep c s = None -> remaining c s = [] /\ finished s = true.
+Lemma step_none_remaining : forall c (s : tstate A M), tstep unw c s = None -> remaining unw c s = [] /\ finished s = true.
 Proof.
   intros c [buf ph todo] H. unfold tstep in H. simpl in H.
   destruct ph; [|discriminate|discriminate].
@@ -176,7 +197,7 @@ Proof.
   destruct out; [discriminate| destruct (lie c); discriminate | discriminate].
 Qed.
 
-Lemma finished_remaining : forall c (s : tstate A M), finished s = true -> remaining c s = [].
+Lemma finished_remaining : forall c (s : tstate A M), finished s = true -> remaining unw c s = [].
 Proof.
   intros c [buf ph todo] H. unfold finished in H. simpl in H.
   destruct ph; try discriminate. destruct todo; [reflexivity | discriminate].
@@ -200,7 +221,7 @@ Proof. intros. unfold proj. rewrite filter_app, map_app. reflexivity. Qed.
     emit running alone, is its sequential trace. *)
 Definition inv c (progs : list (list (event A M))) (g : gstate A M) : Prop :=
   forall t es, nth_error progs t = Some es ->
-    exists s, nth_error (fst g) t = Some s /\ proj t (snd g) ++ remaining c s = snd (run_thread c [] es).
+    exists s, nth_error (fst g) t = Some s /\ proj t (snd g) ++ remaining unw c s = snd (run_thread unw c [] es).
 
 Lemma inv_init : forall c progs, inv c progs (init progs).
 Proof.
@@ -210,11 +231,11 @@ Proof.
   - unfold remaining. simpl. rewrite run_thread_flat. reflexivity.
 Qed.
 
-Lemma inv_step : forall c progs g t0, inv c progs g -> inv c progs (gstep c g t0).
+Lemma inv_step : forall c progs g t0, inv c progs g -> inv c progs (gstep unw c g t0).
 Proof.
   intros c progs [ts log] t0 I. unfold gstep. simpl.
   destruct (nth_error ts t0) as [s0|] eqn:E0; [|exact I].
-  destruct (tstep c s0) as [[s' oa]|] eqn:St; [|exact I].
+  destruct (tstep unw c s0) as [[s' oa]|] eqn:St; [|exact I].
   intros t es H. destruct (I t es H) as [s [Es Hs]]. simpl in *.
   destruct (Nat.eq_dec t0 t) as [->|Ne].
   - exists s'. split; [eapply nth_error_upd_same; eassumption|].
@@ -229,7 +250,7 @@ Proof.
       destruct (Nat.eqb t0 t) eqn:Q; [apply Nat.eqb_eq in Q; contradiction | reflexivity].
 Qed.
 
-Lemma inv_run : forall c progs sched g, inv c progs g -> inv c progs (run_sched c sched g).
+Lemma inv_run : forall c progs sched g, inv c progs g -> inv c progs (run_sched unw c sched g).
 Proof.
   intros c progs sched. unfold run_sched. induction sched as [|t s IH]; intros g I; simpl; [exact I|].
   apply IH, inv_step, I.
@@ -241,10 +262,10 @@ Qed.
     therefore an interleaving of the per-thread sequences of whole [make]/[write] calls. *)
 Theorem no_interleave : forall c (progs : list (list (event A M))) sched t es,
   nth_error progs t = Some es ->
-  let g := run_sched c sched (init progs) in
+  let g := run_sched unw c sched (init progs) in
   exists s, nth_error (fst g) t = Some s
-         /\ proj t (snd g) ++ remaining c s = snd (run_thread c [] es)
-         /\ (finished s = true -> proj t (snd g) = snd (run_thread c [] es)).
+         /\ proj t (snd g) ++ remaining unw c s = snd (run_thread unw c [] es)
+         /\ (finished s = true -> proj t (snd g) = snd (run_thread unw c [] es)).
 Proof.
   intros c progs sched t es H g.
   destruct (inv_run c progs sched _ (inv_init c progs) t es H) as [s [E P]].
@@ -268,8 +289,8 @@ Qed.
     exactly one whole record of the writing thread's history. *)
 Theorem every_write_is_a_whole_record : forall c (progs : list (list (event A M))) sched t es m b,
   nth_error progs t = Some es ->
-  (pol c = ClearAfterOnly -> NoAbortedFormat es) ->
-  In (t, AWrite m b) (snd (run_sched c sched (init progs))) ->
+  (pol c = ClearAfterOnly -> NoAbortedFormat unw (lie c) es) ->
+  In (t, AWrite m b) (snd (run_sched unw c sched (init progs))) ->
   In (m, b) (flat_map (records (lie c)) es).
 Proof.
   intros c progs sched t es m b H Hp Hin.
@@ -288,10 +309,10 @@ Definition f9_history : list (event N N) :=
     Ev 3%N [] (OOk [99; 51; 10]%N) ].        (* info!(c = 3)                       -> "c3\n" *)
 
 Lemma F9_refuted :
-  ~ NoAbortedFormat f9_history /\
-  snd (run_thread (Cfg ClearAfterOnly true) [] f9_history)
+  ~ NoAbortedFormat no_unwind true f9_history /\
+  snd (run_thread no_unwind (Cfg ClearAfterOnly true) [] f9_history)
     = [AMake 1%N; AWrite 1%N [105; 49; 10]%N; AMake 3%N; AWrite 3%N [120; 55; 98; 61; 99; 51; 10]%N] /\
-  snd (run_thread (Cfg ClearAfterOnly true) [] f9_history)
+  snd (run_thread no_unwind (Cfg ClearAfterOnly true) [] f9_history)
     <> spec_actions (flat_map (records true) f9_history).
 Proof.
   split; [|split].
@@ -302,7 +323,7 @@ Qed.
 
 (** The same history under either repair: the third record is its own. *)
 Example F9_history_repaired : forall p, p <> ClearAfterOnly ->
-  snd (run_thread (Cfg p true) [] f9_history)
+  snd (run_thread no_unwind (Cfg p true) [] f9_history)
     = [AMake 1%N; AWrite 1%N [105; 49; 10]%N; AMake 3%N; AWrite 3%N [99; 51; 10]%N].
 Proof. intros [] H; [contradiction| |]; vm_compute; reflexivity. Qed.
 
@@ -311,8 +332,8 @@ Proof. intros [] H; [contradiction| |]; vm_compute; reflexivity. Qed.
 Example one_factory_one_write_example :
   let h : list (event N N) :=
     [ Ev 1%N [Ev 9%N [] (OOk [9; 10]%N)] (OOk [1; 10]%N); Ev 2%N [] (OErr [2]%N [69; 10]%N); Ev 3%N [] (OOk [3; 10]%N) ] in
-  NoAbortedFormat h /\
-  snd (run_thread (Cfg ClearAfterOnly true) [] h)
+  NoAbortedFormat no_unwind true h /\
+  snd (run_thread no_unwind (Cfg ClearAfterOnly true) [] h)
    = [AMake 9%N; AWrite 9%N [9; 10]%N; AMake 1%N; AWrite 1%N [1; 10]%N; AMake 2%N; AWrite 2%N [69; 10]%N; AMake 3%N; AWrite 3%N [3; 10]%N].
 Proof. split; [apply no_aborted_format_spec; vm_compute; reflexivity | vm_compute; reflexivity]. Qed.
 
@@ -320,7 +341,7 @@ Proof. split; [apply no_aborted_format_spec; vm_compute; reflexivity | vm_comput
     write happens; the log interleaves the calls but every write is one whole record. *)
 Example no_interleave_example :
   let progs : list (list (event N N)) := [ [Ev 1%N [] (OOk [1; 10]%N)]; [Ev 2%N [] (OOk [2; 10]%N)] ] in
-  snd (run_sched (Cfg ClearAfterOnly true) [0; 1; 0; 1; 1; 0]%nat (init progs))
+  snd (run_sched no_unwind (Cfg ClearAfterOnly true) [0; 1; 0; 1; 1; 0]%nat (init progs))
    = [(0%nat, AMake 1%N); (1%nat, AMake 2%N); (1%nat, AWrite 2%N [2; 10]%N); (0%nat, AWrite 1%N [1; 10]%N)].
 Proof. vm_compute. reflexivity. Qed.
 
@@ -330,12 +351,33 @@ Proof. vm_compute. reflexivity. Qed.
 Example shared_buffer_would_interleave :
   let c := Cfg ClearAfterOnly true in
   let s0 := TS (@nil N) (@PIdle N N) [Item false 1%N (OOk [1; 10]%N)] in
-  match tstep c s0 with
+  match tstep no_unwind c s0 with
   | Some (s0', _) =>
-      match tstep c (TS (t_buf s0') (@PIdle N N) [Item false 2%N (OOk [2; 10]%N)]) with
+      match tstep no_unwind c (TS (t_buf s0') (@PIdle N N) [Item false 2%N (OOk [2; 10]%N)]) with
       | Some (s1', _) => t_phase s1' = PFormatted false 2%N [1; 10; 2; 10]%N
       | None => False
       end
   | None => False
   end.
 Proof. vm_compute. reflexivity. Qed.
+
+(** A sink that panics inside [write] is the second way out of the closure: with [ClearAfterOnly] it leaves
+    the WHOLE record behind (F9's other face); the code as repaired is unaffected.  Here the write of
+    record 2 unwinds. *)
+Definition unw2 : N -> list N -> bool := fun m _ => N.eqb m 2.
+Definition sink_panic_history : list (event N N) :=
+  [ Ev 1%N [] (OOk [1; 10]%N); Ev 2%N [] (OOk [2; 10]%N); Ev 3%N [] (OOk [3; 10]%N) ].
+
+Example sink_panic_leaks_when_unrepaired :
+  snd (run_thread unw2 (Cfg ClearAfterOnly true) [] sink_panic_history)
+    = [AMake 1%N; AWrite 1%N [1; 10]%N; AMake 2%N; AWrite 2%N [2; 10]%N; AMake 3%N; AWrite 3%N [2; 10; 3; 10]%N]
+  /\ ~ NoAbortedFormat unw2 true sink_panic_history.
+Proof.
+  split; [vm_compute; reflexivity|].
+  intros H. apply no_aborted_format_spec in H. vm_compute in H. discriminate.
+Qed.
+
+Example sink_panic_harmless_when_repaired : forall p, p <> ClearAfterOnly ->
+  snd (run_thread unw2 (Cfg p true) [] sink_panic_history)
+    = [AMake 1%N; AWrite 1%N [1; 10]%N; AMake 2%N; AWrite 2%N [2; 10]%N; AMake 3%N; AWrite 3%N [3; 10]%N].
+Proof. intros [] H; [contradiction| |]; vm_compute; reflexivity. Qed.
